@@ -33,7 +33,7 @@ func (ex *Exec) envLen(st *State) string {
 	n := ex.sc.global("H0_envlog_len", sInt)
 	if !ex.envLenInit {
 		ex.envLenInit = true
-		ex.sc.assert(mkCmp(">=", n, "0"))
+		ex.sc.axiom(mkCmp(">=", n, "0"))
 	}
 	return n
 }
